@@ -266,6 +266,7 @@ def _locs_slice(
     trivia: Trivia,
     sep: str = ',',
     neg: bool = False,
+    lead: bool = True,
 ) -> tuple[fstloc, fstloc, str | None, tuple[int, int] | None]:
     r"""Slice locations for both copy and delete. Parentheses should already have been taken into account for the bounds
     and location. This function will find the separator if present and go from there for the trailing trivia. If trivia
@@ -290,6 +291,8 @@ def _locs_slice(
     - (`bound_end_ln`, `bound_end_col`): End of container (just before delimiters).
     - `trivia`: Standard option on how to handle leading and trailing comments and space, `None` means global default.
     - `neg`: Whether to return a different `del_loc` including negative space if `trivia` has it..
+    - `lead`: If `False` then no leading comments or space are selected regardless of `trivia`. Meant for a zero-length
+        insertion location, where anything leading belongs to the following element and nothing is being replaced.
 
     **Returns:**
     - (`copy_loc`, `del_loc`, `del_indent`, `sep_end_pos`):
@@ -385,6 +388,10 @@ def _locs_slice(
     #     return ((l := fstloc(bound_ln, bound_col, bound_end_ln, bound_end_col)), l, None, sep_end_pos)  # case 0
 
     ld_comms, ld_space, ld_neg, tr_comms, tr_space, tr_neg = get_trivia_params(trivia, neg)
+
+    if not lead:
+        ld_comms = 'none'
+        ld_space = ld_neg = False
 
     ld_text_pos, ld_space_pos, indent = leading_trivia(lines, bound_ln, bound_col,  # start of text / space
                                                        first_ln, first_col, ld_comms, ld_space)
@@ -811,7 +818,8 @@ def put_slice_sep_begin(  # **WARNING!** Here there be dragons! TODO: this reall
 
     copy_loc, del_loc, del_indent, _ = _locs_slice(lines, is_first, is_last, loc_first, loc_last,
                                                    bound_ln, bound_col, bound_end_ln, bound_end_col,
-                                                   fst.FST.get_option('trivia', options), sep, True)  # is_del)
+                                                   fst.FST.get_option('trivia', options), sep, True,  # is_del)
+                                                   not is_ins)  # pure insertion replaces nothing so leading comments and space, which belong to the following element, must not be selected to be overwritten
 
     put_ln, put_col, put_end_ln, put_end_col = del_loc
 
